@@ -213,3 +213,21 @@ func (l *Layout) Globs() []string {
 	}
 	return out
 }
+
+// SpreadDirs renames the files of a layout so that they sit in two directories and pairs of them
+// have the SAME name relative to their directory (ops/f0.graphql, more/f0.graphql, ops/f1..., ):
+// each is its own `operations:` entry, so an entry is identified by its whole path only.
+func SpreadDirs(l *Layout) {
+	dirs := []string{"ops", "more"}
+	for i, f := range l.Files {
+		ext := f.Name[strings.LastIndex(f.Name, "."):]
+		if i%2 == 1 {
+			prev := l.Files[i-1].Name
+			pext := prev[strings.LastIndex(prev, "."):]
+			if (pext == ".go") == (ext == ".go") {
+				ext = pext
+			}
+		}
+		f.Name = fmt.Sprintf("%s/f%d%s", dirs[i%2], i/2, ext)
+	}
+}
